@@ -7,6 +7,9 @@ PAIRS = [("<", ">"), ("<!-- <", "> -->"), ("/* <", "> */"), ("// --", "-- //"), 
          ("《", "》"), ("<<", ">>"), (" <", " >"), ("-->", "<!--"), ("ああい", "いいあ"), ("éé-", "-éé")]
 
 
+HARD_PAIRS = [("ああい", "いいあ"), ("éé-", "-éé"), ("※※ <", "> ※")]
+
+
 def alphabet(ds, de, fillers):
     out = []
     for c in ds + de + fillers:
@@ -55,6 +58,17 @@ def chars_jobs(ctx, invariants, ops, nontrivial, pairs_quick=4, shorter=0):
             if len(al) >= 8 or (ctx.quick and (len(chosen) < 2 or (ds, de) != chosen[1])):
                 n -= 1
         ctx.job("chars[%s|%s]" % (ds, de),
+                gens=[{"base": "GenChars", "consts": {"Alphabet": Chars("".join(al)), "N": n - shorter}}],
+                invariants=invariants, ops=ops, cfg={"ds": ds, "de": de}, nontrivial=nontrivial)
+    # the multi-byte delimiters that overlap themselves are in every run: over the delimiter's own characters plus one
+    # filler the strings get long enough for every fallback position (character count vs. byte count of the part re-read)
+    for (ds, de) in HARD_PAIRS:
+        al = alphabet(ds, de, "a")
+        budget = 4000 if ctx.quick else 250000
+        n = 1
+        while sum(len(al) ** k for k in range(n + 2)) <= budget:
+            n += 1
+        ctx.job("chars-overlap[%s|%s]" % (ds, de),
                 gens=[{"base": "GenChars", "consts": {"Alphabet": Chars("".join(al)), "N": n - shorter}}],
                 invariants=invariants, ops=ops, cfg={"ds": ds, "de": de}, nontrivial=nontrivial)
 
@@ -174,16 +188,17 @@ MNAMES = ["m1", "m2", "m3", "m4"]
 K = {"T1": ["T1", False], "T2": ["T2", False], "T3": ["T3", False], "T1u": ["T1", True], "T2u": ["T2", True], "T3u": ["T3", True],
      "M1": ["M1", False], "M2": ["M2", False], "M3": ["M3", False], "M1u": ["M1", True], "M2u": ["M2", True],
      "R": ["R", False], "P": ["P", False], "S": ["S", False], "U": ["U", False], "T": ["T", False], "F": ["F", False],
-     "Ru": ["R", True], "Pu": ["P", True], "Tu": ["T", True], "Su": ["S", True]}
+     "Ru": ["R", True], "Pu": ["P", True], "Tu": ["T", True], "Su": ["S", True],
+     "SP": ["SP", False], "SF": ["SF", False], "SPu": ["SP", True]}
 
 
 def lines_gen(L, D, E, kinds, unit="  ", base=0, free=(), ws=(), blank=True, suffix="", simulate=None, code_a="", code_b="",
-              mb=False, max_code=99, empty_default=False, pairs=False, preamble=0, inline=False, pair_kind="R", eol="\n", tag_sep=" "):
+              mb=False, max_code=99, empty_default=False, pairs=False, preamble=0, inline=False, pair_kind="R", eol="\n", tag_sep=" ", flag_val="", quote="'", flags_first=False):
     from vlib import TlaSet
     g = {"base": "GenLines", "constraint": "Feasible",
          "consts": {"L": L, "D": D, "E": E, "Kinds": TlaSet([K[k] for k in kinds]), "Unit": Chars(unit), "Base": base,
                     "FreeInd": TlaSet(list(free)), "WsLens": TlaSet(list(ws)), "Blank": blank, "Suffix": Chars(suffix), "CodeA": Chars(code_a), "CodeB": Chars(code_b), "MbCode": mb, "MaxCode": max_code, "EmptyDefault": empty_default, "PairLines": pairs, "Preamble": preamble,
-                    "InlineTags": inline, "PairKind": K[pair_kind], "EOL": Chars(eol), "TagSep": Chars(tag_sep),
+                    "InlineTags": inline, "PairKind": K[pair_kind], "EOL": Chars(eol), "TagSep": Chars(tag_sep), "FlagVal": Chars(flag_val), "QuoteCh": ord(quote), "FlagsFirst": flags_first,
                     "PastTo": Chars(PAST), "FutureTo": Chars(FUTURE),
                     "Tos": [Chars(t) for t in TOS], "Names": [Chars(n) for n in MNAMES]}}
     if simulate:
@@ -211,7 +226,8 @@ def kitchen_sink(ctx, kinds, L, n):
     sd = ctx.seed
     return lines_gen(L, 3, 5, kinds, unit=["  ", "\t", " \t", "    "][sd % 4], base=sd % 2, free=(0, 1, 2), ws=(1, 2), blank=True,
                      suffix=["", "é", "あ"][sd % 3], tag_sep=[" ", "\n     "][(sd // 2) % 2], inline=True, pairs=True,
-                     code_b=["", " = 1"][(sd // 3) % 2], simulate=(n, L))
+                     code_b=["", " = 1"][(sd // 3) % 2], flag_val=["", "='1'", '="true"'][(sd // 2) % 3], quote=["'", '"'][(sd + 1) % 2],
+                     flags_first=(sd % 3 == 1), simulate=(n, L))
 
 
 def block_jobs(ctx, invariants, ops, lite=False):
@@ -231,7 +247,9 @@ def block_jobs(ctx, invariants, ops, lite=False):
                 lines_gen(5, 2, 2, ["R", "P"], unit=" \t", base=1, ws=(2,)),                    # mixed space / tab indentation
                 lines_gen(5 if lite else 6, 2, 2, ["R", "T"], base=1, blank=True, tag_sep="\n     "),   # opening tags spanning two lines
                 lines_gen(4, 1, 1, ["R"], unit="\t ", base=2, blank=True),
-                lines_gen(14, 3, 5, ["R", "P", "S", "U", "T", "F"], ws=(2,), base=ctx.seed % 2, simulate=(15 if lite else 80, 14)),
+                lines_gen(4, 2, 2, ["R", "S", "P"], blank=False, flag_val="='1'"),                   # valued flag attribute: skip='1'
+                lines_gen(4, 2, 2, ["R", "S", "T"], blank=False, quote='"', flags_first=True),
+                lines_gen(14, 3, 5, ["R", "P", "S", "SP", "SF", "U", "T", "F"], ws=(2,), base=ctx.seed % 2, simulate=(15 if lite else 80, 14)),
                 kitchen_sink(ctx, ["R", "P", "S", "U", "T", "F"], 12, 10 if lite else 40),
                 dict(lines_gen(5 - d // 2, 2, 2, ["R", "P", "T"], ws=(2,)), cfg=html)]
         ctx.job("block", gens=gens, invariants=invariants, ops=ops, cfg={"ds": "<", "de": ">"}, nontrivial=has_ready)
@@ -242,9 +260,11 @@ def block_jobs(ctx, invariants, ops, lite=False):
         ("block-two", [lines_gen(11, 1, 2, ["R"], base=0, ws=()), lines_gen(10, 2, 2, ["R", "P"], base=1, ws=())]),
         ("block-tab-mb", [lines_gen(7, 2, 2, ["R", "P"], unit="\t", base=1, ws=(1,)), lines_gen(8, 2, 2, ["R", "P"], base=1, ws=(2,), mb=True),
                           lines_gen(7, 2, 2, ["T", "F"], unit="    ", base=0, suffix="é")]),
-        ("block-sim", [lines_gen(14, 3, 5, ["R", "P", "S", "U", "T", "F"], ws=(2,), base=ctx.seed % 2, simulate=(20000, 14)),
+        ("block-sim", [lines_gen(14, 3, 5, ["R", "P", "S", "SP", "SF", "U", "T", "F"], ws=(2,), base=ctx.seed % 2, simulate=(20000, 14)),
                        kitchen_sink(ctx, ["R", "P", "S", "U", "T", "F"], 14, 6000)]),
         ("block-html", [dict(lines_gen(7, 2, 2, ["R", "P", "T"], ws=(2,)), cfg=html)]),
+        ("block-valued-flags", [lines_gen(7, 2, 2, ["R", "S", "P"], blank=False, flag_val="='1'"), lines_gen(6, 2, 2, ["R", "S"], flag_val='=""'),
+                                lines_gen(7, 2, 2, ["R", "S", "T"], blank=False, quote='"', flags_first=True)]),
         ("block-two-line-tags", [lines_gen(7, 2, 2, ["R", "P", "T"], base=1, blank=True, tag_sep="\n     "),
                                  dict(lines_gen(6, 2, 2, ["R", "P"], blank=True, tag_sep="\n * "), cfg={"ds": "/* <", "de": "> */"})]),
         ("block-mixed-indent", [lines_gen(7, 2, 2, ["R", "P"], unit=" \t", base=1, ws=(2,)), lines_gen(6, 1, 1, ["R"], unit="\t ", base=2, blank=True),
@@ -273,8 +293,12 @@ def unwrap_jobs(ctx, invariants, ops, lite=False):
                 lines_gen(6, 2, 2, ["Ru", "P"], blank=False, base=1, tag_sep="\n     "),                # opening tags spanning two lines
                 lines_gen(6, 1, 1, ["Ru"], free=(0, 2), blank=False, base=1, code_b=" = 1"),       # interior blanks at the tag column
                 lines_gen(6, 1, 1, ["Ru"], unit="\t", free=(0, 2), blank=False, base=1, code_a=" "),
-                lines_gen(16, 3, 4, ["Ru", "R", "P", "Pu", "S"], free=(0, 1, 2), ws=(2,), simulate=(15 if lite else 80, 16)),
-                kitchen_sink(ctx, ["Ru", "R", "P", "Pu", "T", "Tu"], 14, 10 if lite else 40)]
+                lines_gen(6, 2, 2, ["Ru", "Su", "Pu"], free=(1,), blank=False),                    # skip together with unwrap-block
+                lines_gen(6, 1, 1, ["Ru"], free=(0, 2), blank=False, flag_val='="true"'),          # valued flag: unwrap-block="true"
+                lines_gen(6, 2, 2, ["Ru", "Su"], free=(1,), blank=False, flag_val="='1'"),
+                lines_gen(6, 2, 2, ["Ru", "Tu", "P"], free=(1,), blank=False, quote='"', flags_first=True),   # flags first, double quotes
+                lines_gen(16, 3, 4, ["Ru", "R", "P", "Pu", "S", "Su"], free=(0, 1, 2), ws=(2,), simulate=(15 if lite else 80, 16)),
+                kitchen_sink(ctx, ["Ru", "R", "P", "Pu", "T", "Tu", "Su"], 14, 10 if lite else 40)]
         ctx.job("unwrap", gens=gens, invariants=invariants, ops=ops, cfg=cfg, nontrivial=has_ready)
         return
     sets = [
@@ -293,8 +317,12 @@ def unwrap_jobs(ctx, invariants, ops, lite=False):
         ("unwrap-interior-blanks", [lines_gen(8, 1, 1, ["Ru"], free=(0, 1, 2), blank=False, base=1, code_b=" = 1"),
                                     lines_gen(8, 1, 1, ["Ru"], unit="\t", free=(0, 2), blank=False, base=1, code_a=" "),
                                     lines_gen(9, 2, 2, ["Ru", "R"], unit="    ", free=(0,), blank=False, base=1, code_b=" = 1 ")]),
-        ("unwrap-sim", [lines_gen(16, 3, 4, ["Ru", "R", "P", "Pu", "S"], free=(0, 1, 2), ws=(2,), simulate=(20000, 16)),
-                        kitchen_sink(ctx, ["Ru", "R", "P", "Pu", "T", "Tu"], 16, 6000)]),
+        ("unwrap-flags", [lines_gen(8, 2, 2, ["Ru", "Su", "Pu"], free=(1,), blank=False),
+                          lines_gen(8, 1, 1, ["Ru"], free=(0, 1, 2), blank=False, flag_val='="true"'),
+                          lines_gen(8, 2, 2, ["Ru", "Su", "R"], free=(1,), blank=False, flag_val="='1'"),
+                          lines_gen(8, 2, 2, ["Ru", "Tu", "P"], free=(1,), blank=False, quote='"', flags_first=True)]),
+        ("unwrap-sim", [lines_gen(16, 3, 4, ["Ru", "R", "P", "Pu", "S", "Su"], free=(0, 1, 2), ws=(2,), simulate=(20000, 16)),
+                        kitchen_sink(ctx, ["Ru", "R", "P", "Pu", "T", "Tu", "Su"], 16, 6000)]),
     ]
     for (name, gens) in sets:
         ctx.job(name, gens=gens, invariants=invariants, ops=ops, cfg=cfg, nontrivial=has_ready)
@@ -337,6 +365,35 @@ def conformance_job(ctx, invariants):
             ops=[{"op": "tokenize"}, {"op": "tree"}, {"op": "clean"}, {"op": "list_json"}, {"op": "list_all_json"},
                  {"op": "list"}, {"op": "list_all"}],
             cfg={"ds": "<", "de": ">"}, nontrivial=has_ready, fmt_hooks=True, conform=True)
+    evaluator_conformance_job(ctx, invariants)
+
+
+def evaluator_conformance_job(ctx, invariants):
+    """growth beyond the properties: repeated `to` / `name` attributes (the first one decides in the code) and equal tag
+    names for both evaluators (the removal-marker evaluator is registered last and wins); Layer R is lenient there,
+    Layer I (Impl!ImplTimeDec / ImplMarkerDec / DecOf) predicts the code and Conf_All compares"""
+    import json
+    import os
+    from engine import DEFAULT_CFG
+    from vlib import WORK, cfg_json, cps
+    past, future = "2001-01-01 00:00:00", "2999-01-01 00:00:00"
+    attrs = ["to='%s' to='%s'" % (past, future), "to='%s' to='%s'" % (future, past), "to to='%s'" % past, "to='%s' to" % past,
+             "name='a' name='b'", "name='b' name='a'", "name name='a'", "name='a' name",
+             "name='a' to='%s'" % future, "to='%s' name='b'" % past, "to='%s' name='a' skip" % past, "name='b' to='%s' unwrap-block" % past]
+    path = os.path.join(WORK, "evalconf_%s_p%d.ndjson" % (ctx.prop, os.getpid()))
+    ops = [{"op": "clean"}, {"op": "list_all_json"}]
+    n = 0
+    with open(path, "w") as f:
+        for (tl, rm) in [("tl", "rm"), ("x", "x")]:
+            for a in attrs:
+                for nm in sorted({tl, rm}):
+                    for inner in ["", "  <%s %s>\n  in\n  </%s>\n" % (nm, attrs[(attrs.index(a) + 5) % len(attrs)], nm)]:
+                        src = "k\n<%s %s>\n  body\n%s  more\n</%s>\nz\n" % (nm, a, inner, nm)
+                        c = dict(DEFAULT_CFG, ds="<", de=">", tl=tl, rm=rm, targets=["a"], now=[19000, 0])
+                        f.write(json.dumps({"id": "evalconf:%d" % n, "gen": "evaluator-conformance", "src": cps(src),
+                                            "cfg": cfg_json(c), "ops": ops}) + "\n")
+                        n += 1
+    ctx.job("conformance-evaluators", gens=[{"file": path}], invariants=invariants, ops=ops, nontrivial=None, conform=True)
 
 
 REPO_DOCS = [
@@ -514,7 +571,9 @@ def check_C17(ctx):
     unwrap_jobs(ctx, ["Inv_C17"], ops, lite=True)
     ctx.job("pending-many", gens=[lines_gen(8 if ctx.quick else 11, 2, 4, ["R", "P"], blank=False),
                                   lines_gen(7 if ctx.quick else 9, 2, 3, ["Ru", "P", "Pu"], blank=False),
-                                  lines_gen(7 if ctx.quick else 9, 3, 3, ["S", "P", "R"], blank=False)],
+                                  lines_gen(7 if ctx.quick else 9, 3, 3, ["S", "P", "R"], blank=False),
+                                  lines_gen(7 if ctx.quick else 9, 2, 3, ["SP", "P", "R"], blank=False),          # skip on pending parents / children
+                                  lines_gen(6 if ctx.quick else 8, 2, 2, ["SF", "SPu", "Pu", "F"], blank=False, flag_val="='1'")],
             invariants=["Inv_C17"], ops=ops, cfg={"ds": "<", "de": ">"}, nontrivial=has_ready)
     repo_docs_job(ctx, ["Inv_C17"], [{"op": "list_json"}, {"op": "list_all_json"}])
 
@@ -761,12 +820,13 @@ CLI_DOCS_DEFAULT = [
     "a\n<!-- <time-limited to='2001-01-01 00:00:00'> -->\nold\n<!-- </time-limited> -->\n"
     "<!-- <removal-marker name='a'> -->\n  ra\n<!-- </removal-marker> -->\n"
     "<!-- <removal-marker name='feature1' unwrap-block> -->\nif (f) {\n  keep();\n}\n<!-- </removal-marker> -->\n"
-    "<!-- <removal-marker name='vec![]'> -->\nrv\n<!-- </removal-marker> -->\nz\n",
+    "<!-- <removal-marker name='vec![]'> -->\nrv\n<!-- </removal-marker> -->\n"
+    "<!-- <removal-marker name=''> -->\nempty name\n<!-- </removal-marker> -->\nz\n",
     "日本語\n<!-- <time-limited to='2999-01-01 00:00:00'> -->\n\tnew é\n<!-- </time-limited> -->\nend",
     "",
 ]
 CLI_DOCS_CUSTOM = [
-    "x\n/* <tl to='2001-01-01 00:00:00'> */\nold\n/* </tl> */\n/* <rm name='a'> */ra/* </rm> */\n/* <rm name='zz'> */\nrz\n/* </rm> */\ny\n",
+    "x\n/* <tl to='2001-01-01 00:00:00'> */\nold\n/* </tl> */\n/* <rm name='a'> */ra/* </rm> */\n/* <rm name='zz'> */\nrz\n/* </rm> */\n/* <rm name=''> */\nre\n/* </rm> */\ny\n",
 ]
 
 
